@@ -47,3 +47,17 @@ package fetcher
 //@   assert before call#1 newFilteredFetcher: optACPHas(f.documentACP) ==> hastype(arg4, *permissionedFetcher)
 //@   ensures err == nil && optACPHas(f.documentACP) ==> hastype(f.fetcher, *permissionedFetcher) || (hastype(f.fetcher, *filteredFetcher) && hastype(as(f.fetcher, *filteredFetcher).fetcher, *permissionedFetcher))
 //@   tags C10
+//@
+//@ // ===== C03: a time-travel read replays every commit once, into the transient store only ============
+//@ extern datastore.CtxSetTxn(ctx, txn) -> (r)
+//@   pure
+//@ extern (crdt.CRDT).* -> (r)
+//@   pure
+//@ func (*VersionedFetcher).merge -> (err)
+//@   assert before call#1 ProcessBlock: !old(maphas(vf.mergedCids, c)) && arg0 == res(CtxSetTxn, 1, 0) && callarg(CtxSetTxn, 1, 1) == vf.store && arg3.Cid == c
+//@   assert before call#1 getDAGBlock: maphas(vf.mergedCids, c) && !old(maphas(vf.mergedCids, c))
+//@   ensures old(maphas(vf.mergedCids, c)) ==> err == nil
+//@   tags C03
+//@ func (*VersionedFetcher).seekTo -> (err)
+//@   assert before call#1 seekNext: arg1 == c
+//@   tags C03
